@@ -178,7 +178,7 @@ func (rf *RecFacts) leafClass(typ string) string {
 		return "struct"
 	}
 	switch typ {
-	case genfacts.StructA, genfacts.StructE, genfacts.StructR, genfacts.StructM, genfacts.StructW, genfacts.StructX, genfacts.StructV, genfacts.StructF, genfacts.StructBig, "ISt", "IBs":
+	case genfacts.StructA, genfacts.StructE, genfacts.StructR, genfacts.StructM, genfacts.StructW, genfacts.StructX, genfacts.StructV, genfacts.StructF, genfacts.StructBig, genfacts.StructN, "ISt", "IBs":
 		return "struct"
 	case genfacts.MessageA, genfacts.MessageE, "IMs":
 		return "message"
